@@ -14,3 +14,5 @@ import XmppVerif.Tie.C19
 import XmppVerif.Tie.C20
 import XmppVerif.Props.C06
 import XmppVerif.Drv.C06
+import XmppVerif.Props.C10
+import XmppVerif.Drv.C10
